@@ -8,7 +8,7 @@ if [ ! -x "$V/bin/python" ]; then
 fi
 SP=$("$V/bin/python" -c "import sysconfig; print(sysconfig.get_paths()['purelib'])")
 printf "import site; site.addsitedir('/venv/lib/python3.12/site-packages')\n" > "$SP/_overlay.pth"
-if ! "$V/bin/python" -c "import z3, crosshair" 2>/dev/null; then
-    PIP_NO_INDEX=1 "$V/bin/pip" install -q --no-index --find-links /opt/veriftools/wheels crosshair-tool z3-solver
+if ! "$V/bin/python" -c "import z3" 2>/dev/null; then
+    PIP_NO_INDEX=1 "$V/bin/pip" install -q --no-index --find-links /opt/veriftools/wheels z3-solver
 fi
-"$V/bin/python" -c "import z3, crosshair, pdb2pqr; print('setup ok: z3', z3.get_version_string(), 'pdb2pqr from', pdb2pqr.__file__)"
+"$V/bin/python" -c "import z3, pdb2pqr; print('setup ok: z3', z3.get_version_string(), 'pdb2pqr from', pdb2pqr.__file__)"
